@@ -503,7 +503,7 @@ func (g *mgen) classType(c string, depth int) (T, bool) {
 	case "bytes":
 		t = T{Kind: KBytes}
 	case "default_string":
-		t = T{Kind: KString, Default: Raw(rapid.SampledFrom([]string{"hello", "", "a \"quoted\" ünï", "x"}).Draw(g.t, "dstr"))}
+		t = T{Kind: KString, Default: Raw(rapid.SampledFrom([]string{"hello", "", "a \"quoted\" ünï", "x", "%H:%M 50% of %s", "back\\slash $x {y}"}).Draw(g.t, "dstr"))}
 	case "default_int":
 		t = T{Kind: KInt, Default: Raw(rapid.IntRange(-2, 99).Draw(g.t, "dint"))}
 	case "default_bool":
